@@ -69,11 +69,11 @@ let () =
       ^ " refused=" ^ sn refused ^ " streams="
       ^ (match t with [] -> "-" | _ -> String.concat "," (List.map (fun (n, g) -> sn n ^ "." ^ sn g) t))
     | _ -> "?args");
-  (* c4png <fixed> <decode> <limit> <columns> <samples_per_pixel> <bits_per_sample>  (numbers as 0 / b<binary digits>) -> err | ok bpr=<n> alloc=<n> incoming=<n> *)
+  (* c4png <decode> <limit> <columns> <samples_per_pixel> <bits_per_sample>  (numbers as 0 / b<binary digits>) -> err | ok bpr=<n> alloc=<n> incoming=<n> *)
   register "c4png" (fun a -> match a with
-    | [fx; dec; limit; cols; spp; bps] ->
+    | [dec; limit; cols; spp; bps] ->
       let zi = z_of_bits in
-      (match c4_png_ctor (b01 fx) (b01 dec) (zi limit) (zi cols) (zi spp) (zi bps) with
+      (match c4_png_ctor (b01 dec) (zi limit) (zi cols) (zi spp) (zi bps) with
        | None -> "err"
        | Some p -> "ok bpr=" ^ bits_of_z p.c4png_bpr ^ " alloc=" ^ bits_of_z p.c4png_alloc ^ " incoming=" ^ bits_of_z p.c4png_incoming)
     | _ -> "?args");
